@@ -19,7 +19,7 @@ def shards_for(run: Run) -> list[dict]:
             {
                 "prop": PROP, "judges": JUDGES, "modes": MODES, "source": "random", "profile": "core",
                 "seed": seed_int(PROP, run.seed, j), "count": nrand, "cap": run.pick(250, 700), "maxlen": run.pick(4, 5),
-                "sample_at": 200 * j, "rename": j % 4 == 3, "long_inputs": 2 if j % 4 == 1 else 0,
+                "sample_at": 200 * j, "rename": j % 4 == 3, "long_inputs": 2 if j % 4 == 1 else 0, "profile_overrides": {"more_builtins": j % 2 == 0},
             }
         )
     # exhaustive stratum: ALL expression trees of depth <= 2 over the core terminals (x all strings over the alphabet up to length 4);
